@@ -98,6 +98,25 @@ CLAIMED = {
         design_ref="DESIGN.md §5 C17",
         note="Numeric agreement is sampled over values; exhaustive over the 42 classes and 852 declared units.",
     ),
+    "C09": dict(
+        technique="TLA+ model checking (TLC) of Stats.tla with exact rational getters + execution of every transition on the real Tally/Counter classes through exact affine images",
+        category="model_checking",
+        text="Stats.tla keeps the observations and defines every public getter as an exact rational (or NaN) from the documented formulas, so the "
+             "definedness table and all values for every history up to the bound are TLC's; each transition of the complete graph is executed on "
+             "Tally, EventBasedTally (with and without subscribers), Counter and EventBasedCounter, with data fed through exact dyadic affine images "
+             "(large offset / small spread, negative scale) and a 200-fold repetition; getters are compared at 1e-9 relative plus a condition-number term.",
+        design_ref="DESIGN.md §5 C09",
+        note="Arbitrary float data is not enumerated: accuracy is asserted on affine images and repetitions of TLC-enumerated integer patterns; z quantiles from statistics.NormalDist.",
+    ),
+    "C10": dict(
+        technique="TLA+ model checking (TLC) of Stats.tla weighted / timestamp machines with exact rational getters + execution of every transition on the real classes",
+        category="model_checking",
+        text="All histories of weighted observations (zero weights, all-zero weights) and of timestamped observations (repeats, earlier timestamps, "
+             "closing, use after closing, re-initialisation) up to the bound with exact getters and TotalWeightIsSpan; every transition is executed on "
+             "WeightedTally / TimestampWeightedTally and their event-publishing variants with scaled weights and times.",
+        design_ref="DESIGN.md §5 C10",
+        note="As C09; weighted mean with zero total weight may be NaN or 0 (statement silent).",
+    ),
 }
 
 NOT_APPLICABLE = {
